@@ -25,6 +25,10 @@ type MSess struct {
 	CapCS int      `json:"cap_cs"`
 	CapSC int      `json:"cap_sc"`
 	Opts  []string `json:"opts"`
+	// StallAt > 0 (pull only): this client stops reading for good once it has
+	// consumed StallAt bytes of the server's output - a stalled peer. It is
+	// outside the guarantee itself, but must not hold up any other session.
+	StallAt int64 `json:"stall_at,omitempty"`
 }
 
 type MultiScenario struct {
@@ -76,6 +80,24 @@ func (c18) Generate(seed uint64, tier string, index int) any {
 			}
 			s.CapCS, s.CapSC = pick(), pick()
 			ms.Sessions = append(ms.Sessions, s)
+		}
+		if !race && g.R.Intn(3) == 0 {
+			// stalled peers: some (sometimes more than there are CPUs) pulling
+			// clients stop reading in mid-transfer; everybody else must finish
+			k := 1 + g.R.Intn(3)
+			if g.R.Intn(3) == 0 {
+				k = 17 + g.R.Intn(8)
+			}
+			for i := 0; i < k; i++ {
+				at := int64(100 + g.R.Intn(4000))
+				if g.R.Bool() {
+					at = int64(100 + g.R.Intn(200000))
+				}
+				st := MSess{Kind: "pull", Opts: []string{"-rlptD"}, CapCS: 65536, CapSC: []int{12, 64, 4096, 65536}[g.R.Intn(4)], StallAt: at}
+				pos := g.R.Intn(len(ms.Sessions) + 1)
+				ms.Sessions = append(ms.Sessions[:pos], append([]MSess{st}, ms.Sessions[pos:]...)...)
+			}
+			n = len(ms.Sessions)
 		}
 		ms.Tr = g.TransportFor(12, int64(n)*2*treeBytes(&ms.Src))
 		if !race && g.R.Intn(3) == 0 {
@@ -261,6 +283,9 @@ type multiOut struct {
 	tape    []uint32
 	srvLog  string
 	timeout bool
+	// doneAtStop[i]: session i had returned when the scheduler stopped
+	doneAtStop []bool
+	unfinished []bool
 }
 
 func multiDest(lay Layout, i int) string { return filepath.Join(lay.Root, fmt.Sprintf("pull%d", i)) }
@@ -325,6 +350,26 @@ func runMulti(t *testing.T, ms *MultiScenario, lay Layout, res *Result) {
 			ms.Tr.Tape = out.tape
 		}
 	}
+	nstalled := 0
+	for _, s := range ms.Sessions {
+		if s.StallAt > 0 {
+			nstalled++
+		}
+	}
+	if out.outcome == kernel.Frozen && nstalled > 0 && !ms.Free {
+		// only stalled peers are left: everybody else must have finished
+		for i, s := range ms.Sessions {
+			if s.StallAt == 0 && !out.doneAtStop[i] {
+				fail("interference", "held-up-by-stalled-peer:"+s.Kind, fmt.Sprintf("session %d (%s) cannot finish while %d other clients have stopped reading (they are stalled peers, this one is not): %s", i, s.Kind, nstalled, out.pending))
+				return
+			}
+		}
+		res.Probe("runs_with_stalled_peers", 1)
+		res.Probe("stalled_peers", nstalled)
+	} else if out.outcome == kernel.Frozen {
+		res.Inconclusive = "frozen outcome without stalled peers: " + out.pending
+		return
+	}
 	if out.outcome == kernel.Deadlock {
 		fail("deadlock", "deadlock:multi", "concurrent sessions stuck: "+out.pending)
 		return
@@ -336,6 +381,9 @@ func runMulti(t *testing.T, ms *MultiScenario, lay Layout, res *Result) {
 	fields := []string{"sum", "perm", "fmtime", "target"}
 	nsame := 0
 	for i, s := range ms.Sessions {
+		if s.StallAt > 0 && (out.doneAtStop == nil || !out.doneAtStop[i]) {
+			continue // a stalled peer: outside the guarantee
+		}
 		if out.errs[i] != nil {
 			fail("interference", "session-error:"+s.Kind, fmt.Sprintf("session %d (%s) failed when run concurrently with %d others, although it succeeds alone: %v", i, s.Kind, len(ms.Sessions)-1, out.errs[i]))
 			return
@@ -403,6 +451,9 @@ func execMulti(t *testing.T, ms *MultiScenario, lay Layout, rw string) (out *mul
 		for i, s := range ms.Sessions {
 			i, s := i, s
 			end := ln.Dial(fmt.Sprintf("192.0.2.%d:%d", 1+i%250, 40000+i), s.CapCS, s.CapSC)
+			if s.StallAt > 0 {
+				end.RPipe().FreezeReaderAt(s.StallAt)
+			}
 			fn := multiClientFn(ctx, s, i, lay, end)
 			parties[i] = sim.Go(fmt.Sprintf("client%d", i), fn, end)
 		}
@@ -411,15 +462,35 @@ func execMulti(t *testing.T, ms *MultiScenario, lay Layout, rw string) (out *mul
 		if out.outcome != kernel.Finished {
 			out.pending = sim.PendingSummary()
 		}
+		// who had finished when the scheduler stopped (before the shutdown lets
+		// everybody fail)?
+		out.doneAtStop = make([]bool, len(parties))
+		doneErrs := make([]error, len(parties))
+		for i, p := range parties {
+			out.doneAtStop[i] = p.Done()
+			doneErrs[i] = p.Err()
+		}
 		sim.Shutdown()
 		cancel()
 		ln.Close()
 		synctest.Wait()
+		defer func() {
+			for i := range parties {
+				if out.doneAtStop[i] {
+					out.errs[i] = doneErrs[i]
+				}
+			}
+		}()
 		for i, p := range parties {
 			out.errs[i] = p.Err()
 			if !p.Done() {
 				out.errs[i] = fmt.Errorf("session did not finish")
 			}
+		}
+		out.unfinished = make([]bool, len(parties))
+		for i, p := range parties {
+			out.unfinished[i] = !out.doneAtStop[i]
+			_ = p
 		}
 		out.srvLog = slog.String()
 	})
